@@ -353,7 +353,16 @@ func main() {
 
 	if *replay != "" {
 		abs, _ := filepath.Abs(*replay)
-		cfg := workerCfg{Property: prop, Mode: "replay", Tier: tier, VerifSeed: seed, NWorkers: 1, OutFile: filepath.Join(scratch, "replay.json"), Replay: abs, Findings: openIDs, MaxProcs: 4}
+		procs := 4
+		if rb, err := os.ReadFile(abs); err == nil {
+			var hdr struct {
+				P int `json:"explored_at_gomaxprocs"`
+			}
+			if json.Unmarshal(rb, &hdr) == nil && hdr.P > 0 {
+				procs = hdr.P // the code under test may depend on GOMAXPROCS
+			}
+		}
+		cfg := workerCfg{Property: prop, Mode: "replay", Tier: tier, VerifSeed: seed, NWorkers: 1, OutFile: filepath.Join(scratch, "replay.json"), Replay: abs, Findings: openIDs, MaxProcs: procs}
 		s, err := runWorker(bin, cfg, 20*time.Minute)
 		if err != nil {
 			die(2, "replay failed to run: %v", err)
@@ -382,7 +391,7 @@ func main() {
 			nDet = 2000
 		}
 	}
-	detPairs, detMismatch := 0, 0
+	detPairs, detMismatch, detProcsDependent := 0, 0, 0
 	if nDet > 0 {
 		var idx []int
 		for i := 0; i < nDet; i++ {
@@ -407,13 +416,13 @@ func main() {
 					part = append(part, v)
 				}
 			}
-			res := make([]dres, 3)
+			res := make([]dres, 6)
 			var gw sync.WaitGroup
-			for k, mp := range []int{1, 4, 16} {
+			for k, mp := range []int{1, 4, 16, 1, 4, 16} {
 				gw.Add(1)
 				go func(k, mp int) {
 					defer gw.Done()
-					cfg := workerCfg{Property: prop, Mode: "determinism", Tier: tier, VerifSeed: seed, NWorkers: 1, Indices: part, OutFile: filepath.Join(scratch, fmt.Sprintf("det-%d-%d.json", g, mp)), Findings: openIDs, MaxProcs: mp}
+					cfg := workerCfg{Property: prop, Mode: "determinism", Tier: tier, VerifSeed: seed, NWorkers: 1, Indices: part, OutFile: filepath.Join(scratch, fmt.Sprintf("det-%d-%d-%d.json", g, mp, k)), Findings: openIDs, MaxProcs: mp}
 					s, err := runWorker(bin, cfg, 60*time.Minute)
 					res[k] = dres{s, err}
 				}(k, mp)
@@ -434,9 +443,18 @@ func main() {
 				}
 				for k, v := range res[0].s.Determinism {
 					detPairs++
+					// hard requirement: two processes with the same GOMAXPROCS agree
+					for j := 0; j < 3; j++ {
+						if res[j].s.Determinism[k] != res[j+3].s.Determinism[k] {
+							detMismatch++
+							fmt.Printf("simdrv: DETERMINISM MISMATCH run index %s between two processes at the same GOMAXPROCS: %q / %q\n", k, res[j].s.Determinism[k], res[j+3].s.Determinism[k])
+							break
+						}
+					}
+					// across GOMAXPROCS values the logs agree unless the code under test itself
+					// reads GOMAXPROCS (e.g. to size a worker pool): reported, not a failure
 					if res[1].s.Determinism[k] != v || res[2].s.Determinism[k] != v {
-						detMismatch++
-						fmt.Printf("simdrv: DETERMINISM MISMATCH run index %s: %q / %q / %q\n", k, v, res[1].s.Determinism[k], res[2].s.Determinism[k])
+						detProcsDependent++
 					}
 				}
 			}()
@@ -446,9 +464,13 @@ func main() {
 			die(2, "determinism self-test could not run: %v", firstErr)
 		}
 		if detMismatch > 0 {
-			die(2, "determinism self-test: %d of %d seeds differ between processes at GOMAXPROCS 1/4/16 - nothing this run reports can be trusted", detMismatch, detPairs)
+			die(2, "determinism self-test: %d of %d seeds differ between two processes with the same GOMAXPROCS - nothing this run reports can be trusted", detMismatch, detPairs)
 		}
-		fmt.Printf("simdrv: determinism self-test ok (%d seeds x 3 processes at GOMAXPROCS 1/4/16, identical event logs) at %.1fs\n", detPairs, time.Since(start).Seconds())
+		if detProcsDependent > 0 {
+			fmt.Printf("simdrv: determinism self-test ok (%d seeds x 6 processes: identical event logs for equal GOMAXPROCS; %d seeds differ ACROSS GOMAXPROCS 1/4/16, i.e. the code under test depends on GOMAXPROCS itself) at %.1fs\n", detPairs, detProcsDependent, time.Since(start).Seconds())
+		} else {
+			fmt.Printf("simdrv: determinism self-test ok (%d seeds x 6 processes at GOMAXPROCS 1/4/16 twice each, identical event logs) at %.1fs\n", detPairs, time.Since(start).Seconds())
+		}
 	}
 
 	// 2. exploration
@@ -561,7 +583,11 @@ func main() {
 			continue
 		}
 		tag := strconv.Itoa(i)
-		if replayOnce(v, tag, 4) != class {
+		eprocs := int(num("explored_at_gomaxprocs"))
+		if eprocs <= 0 {
+			eprocs = 4
+		}
+		if replayOnce(v, tag, eprocs) != class {
 			// The violation may depend on state that earlier runs of the same worker
 			// process left behind (itself a cross-call leak). Replay the run after the
 			// runs that preceded it in that worker, then shorten that prefix.
